@@ -42,6 +42,10 @@ CHECKS["C06"] = ("exploration",
    "Every ordered pair of a 72-request near-collision pool (a, b, a) is pushed through a fresh cache with Normalize on and off (enumerated); seeded histories of Get+ExecutePlan, plan re-execution with other variables, Reset and schema replacement run under seeded cache knobs (MaxEntries 1-4/default, tiny MaxQueryBytes, nil cache). After every operation the response must equal graphql.Do of the same request from scratch (including error responses), the entry count must respect the bound, counters must be monotone.",
    "Trusted: graphql.Do of the same library as the from-scratch reference (a bug that corrupts both paths identically is C01's business); the echo world makes every argument, alias, included sibling and schema id visible in the response. 'The original document is not modified' is not observable through Get(text) and is not claimed.",
    "seeded operation histories + enumerated request pairs against a from-scratch reference execution", "§5 C06")
+CHECKS["C15"] = ("exploration",
+   "Producer, the library's forwarding goroutine, per-event executor goroutines, consumer (prompt / slow / stops after j) and the cancellation action are interleaved by the seeded scheduler over 0-5 events (ok, nullable failure, non-null failure) and subscribe-phase faults (syntax, validation, unknown operation, Subscribe returning error / nil / a plain value / a closed stream / panicking with error, string, int); the recorded history must show results in source order, each equal to the solo execution of its event (or the context error after cancellation), one result per event without cancellation, closure after source close / cancellation / failure, and - after cancellation and quiescence - no goroutine of the subscription still blocked (read off the bubble's goroutine dump).",
+   "Trusted: testing/synctest quiescence detection and goroutine dump, the seeded scheduler. The library's two-ready selects are kept single-ready in the default mode (cancellation is not placed while the producer is mid-send or a result is pending at a blocked consumer; a consumer polls after cancellation); the both-ready mode (10% of runs) lifts this and accepts either legal branch.",
+   "seeded interleaving of producer / forwarder / executors / consumer / canceller with leak detection at quiescence", "§5 C15")
 REASONS_PENDING = "claimed in DESIGN.md; the check is still under construction and is therefore not registered yet"
 ALL = ["C%02d" % i for i in range(1, 21)]
 hooks_commit = "0e04175"
